@@ -115,11 +115,12 @@ def quoteMeta (s : String) : String :=
   String.ofList (s.toList.flatMap fun c => if "\\.+*?()|[]{}^$".toList.contains c then ['\\', c] else [c])
 
 /-- `unicode.ToLower` on the alphabet the harness generates: ASCII plus a table of the
-non-ASCII letters used to probe folding (`µ Μ μ ſ ς Σ σ Å å É é K`). -/
+non-ASCII letters used to probe folding (`µ Μ μ ſ ς Σ σ Å å É é K ẞ ß`). -/
 def goLowerChar (c : Char) : Char :=
   if c.toNat < 128 then c.toLower else
   match c with
   | 'Μ' => 'μ' | 'Σ' => 'σ' | 'Å' => 'å' | 'É' => 'é' | 'K' => 'k'   -- U+212A KELVIN SIGN → k
+  | 'ẞ' => 'ß'
   | c => c
 
 def goToLower (s : String) : String := String.ofList (s.toList.map goLowerChar)
@@ -133,6 +134,7 @@ def foldChar (c : Char) : Char :=
   | 'Σ' => 'σ' | 'ς' => 'σ'
   | 'Å' => 'å' | 'É' => 'é'
   | 'K' => 'k'
+  | 'ẞ' => 'ß'                           -- U+1E9E LATIN CAPITAL LETTER SHARP S ↔ U+00DF
   | c => c
 
 /-- `strings.EqualFold` -/
@@ -142,7 +144,7 @@ def equalFold (a b : String) : Bool := a.toList.map foldChar == b.toList.map fol
 def isExportedName (s : String) : Bool :=
   match s.toList with
   | [] => false
-  | c :: _ => c.isUpper || c == 'Μ' || c == 'Σ' || c == 'Å' || c == 'É' || c == 'K'
+  | c :: _ => c.isUpper || c == 'Μ' || c == 'Σ' || c == 'Å' || c == 'É' || c == 'K' || c == 'ẞ'
 
 /-- `path.Ext`: the suffix beginning at the final dot in the final slash-separated element -/
 def pathExt (p : String) : String :=
